@@ -88,18 +88,23 @@ def main():
     t0 = time.time()
     res = {"status": "undecided", "backend": "", "detail": "", "model": None, "tries": []}
     assertions = list(z3.parse_smt2_string(text))
-    # ---- full
-    s = z3.Solver()
-    s.set("timeout", int(budget * 1000 * 0.35))
-    s.add(*assertions)
-    r = s.check()
-    res["tries"].append(["z3-full", str(r), round(time.time() - t0, 2)])
-    if r == z3.unsat:
-        res.update(status="discharged", backend="z3")
-        print(json.dumps(res)); return
-    if r == z3.sat:
-        res.update(status="refuted", backend="z3", model=model_dict(s.model()))
-        print(json.dumps(res)); return
+    # ---- full, short first attempt (most obligations fall here); the long attempt comes after the ground stage
+    def full(ms, tag):
+        s = z3.Solver()
+        s.set("timeout", int(ms))
+        s.add(*assertions)
+        tt = time.time()
+        r = s.check()
+        res["tries"].append([tag, str(r), round(time.time() - tt, 2)])
+        if r == z3.unsat:
+            res.update(status="discharged", backend="z3")
+            print(json.dumps(res)); return True
+        if r == z3.sat:
+            res.update(status="refuted", backend="z3", model=model_dict(s.model()))
+            print(json.dumps(res)); return True
+        return False
+    if full(min(2500, budget * 1000 * 0.1), "z3-full-short"):
+        return
     # ---- ground + ackermann + nlsat
     t1 = time.time()
     ground = [a for a in assertions if not has_quant(a)]
@@ -120,6 +125,9 @@ def main():
     if r2 == z3.sat and dropped == 0:
         res.update(status="refuted", backend="z3-ground", model=model_dict(s2.model()))
         print(json.dumps(res)); return
+    # ---- full, long attempt
+    if full(budget * 1000 * 0.35, "z3-full"):
+        return
     # ---- cvc5 full
     import os, subprocess, tempfile
     t2 = time.time()
